@@ -73,6 +73,9 @@ def cases(tier, rng):
                                (12 << 20, [], 'last')):
             yield {'codec': codec, 'chunks': [{'rep': '6162636465666768', 'n': n}], 'cuts': cuts, 'truncate': trunc, 'oracle_only': True}
     for codec in ('gzip', 'zstd'):
+        # more than 64 MiB in several items (size-triggered behaviour of the compressor: member / frame splitting, 32-bit counters)
+        yield {'codec': codec, 'chunks': [{'rep': '6162636465666768', 'n': 17 << 20}] * 5, 'cuts': 'half', 'truncate': None, 'oracle_only': True}
+    for codec in ('gzip', 'zstd'):
         small = [b'ab', b'', b'cdefg' * 3]
         z = compress_real(codec, small)[0]
         n = len(z)
